@@ -262,8 +262,16 @@ func c14Case(c *core.Ctx, r *core.Rand, i int, caseDir string) {
 		return
 	}
 	bind := gen.CanonEnv(env)
-	if i%3 == 2 {
+	switch i % 6 {
+	case 2:
 		bind["incname"] = gen.NTitle(f0.arg) // the name of the file as a value of a named string type
+	case 3:
+		bind["incname"] = gen.DropV{X: f0.arg} // ... as a Drop that stands for the string
+	case 4:
+		name := f0.arg
+		bind["incname"] = &name // ... behind a pointer
+	case 5:
+		bind["incname"] = &gen.DropP{X: gen.NTitle(f0.arg)}
 	}
 	res := core.RunAt(e, topSrc, topPath, 1, bind)
 	c.Eval(1)
